@@ -393,6 +393,28 @@ def gen_optimize(rel, tree, src, qual, prefix, parts, faces):
     return out
 
 
+def attr_reset(rel, body, container, what):
+    """`if self.mesh.<container>.has_attribute(name): x = ...get_attribute(name) [; x.clear()] else: x = ...create_attribute(..)`
+    for the singularity attribute -> does flag_singularities reset an attribute that already exists?"""
+    hits = [s_ for s_ in body if isinstance(s_, ast.If)
+            and ast.unparse(s_.test) == "self.mesh.%s.has_attribute(singul_attr_name)" % container]
+    if len(hits) != 1 or len(hits[0].orelse) != 1:
+        raise TranslationError("%s: %s: the get-or-create of the singularity attribute was not found" % (rel, what))
+    st = hits[0]
+    m = re.match(r"^(\w+) = self\.mesh\.%s\.get_attribute\(singul_attr_name\)$" % container, ast.unparse(st.body[0]))
+    if not m:
+        T.fail(rel, st, "unexpected fetch of the singularity attribute")
+    name = m.group(1)
+    if not ast.unparse(st.orelse[0]).startswith("%s = self.mesh.%s.create_attribute(singul_attr_name" % (name, container)):
+        T.fail(rel, st, "unexpected creation of the singularity attribute")
+    rest = [ast.unparse(x) for x in st.body[1:]]
+    if rest == ["%s.clear()" % name]:
+        return True
+    if rest == []:
+        return False
+    T.fail(rel, st, "unexpected statement next to the fetch of the singularity attribute")
+
+
 def gen_faces(parts):
     src, tree = T.load(FACES)
     out = []
@@ -509,7 +531,9 @@ def gen_faces(parts):
         if isinstance(n, ast.BinOp) and type(n.op) in (ast.Mult, ast.Div):
             return "(%s OPS_ %s %s)" % ("omul" if isinstance(n.op, ast.Mult) else "odiv", texpr(n.left), texpr(n.right))
         T.fail(FACES, n, "unsupported index expression")
+    resets = attr_reset(FACES, body, "vertices", "faces2d.flag_singularities")
     out += ["(* ---- faces2d.py: _BaseFrameField2DFaces.flag_singularities *)",
+            "Definition sing_resets_faces : bool := %s." % ("true" if resets else "false"),
             "Definition sing_thr : Q := %s." % qlit(thr),
             "Definition sing_sign (u v : Z) : bool := %s." % sign,
             "Definition sing_flag (angle : T) : bool := %s." % guard_text(op, "sing_thr", "(oabs OPS_ angle)"),
@@ -615,6 +639,11 @@ def gen_vertices(parts):
            "Definition cstrv_norm_guard (a : T) : bool := %s." % guard_text(nop, "cstrv_norm_thr", "a"),
            "(* ---- vertex2d.py: FrameField2DVertices.optimize (bordered branch) *)"]
     out += gen_optimize(VERTS, tree, src, "FrameField2DVertices.optimize", "optv", parts, False)
+    fs = T.find_def(tree, "_BaseFrameField2DVertices.flag_singularities", VERTS)
+    parts.append(("vertex2d._BaseFrameField2DVertices.flag_singularities", T.sha(src, fs)))
+    rv = attr_reset(VERTS, stmts(fs), "faces", "vertex2d.flag_singularities")
+    out += ["(* ---- vertex2d.py: _BaseFrameField2DVertices.flag_singularities *)",
+            "Definition sing_resets_vertices : bool := %s." % ("true" if rv else "false")]
     return "\n".join(out)
 
 
